@@ -506,8 +506,8 @@ func runProbe1(p probe) string {
 
 type probeOut struct {
 	e, i, q, d, w, fo, t string
-	num              float64
-	numS, ls, rs, pr string
+	num                  float64
+	numS, ls, rs, pr     string
 }
 
 func parseFCanon(s string) (float64, bool) {
@@ -943,6 +943,12 @@ func replay(o hx.Opts) {
 			os.Exit(1)
 		}
 		fmt.Println("passes now")
+	case "hist":
+		msg, failed := replayHistory(d)
+		fmt.Println(msg)
+		if failed {
+			os.Exit(1)
+		}
 	case "probe":
 		p := probe{Prov: d["provenance"].(string), CF: string(hx.UnHex(d["convfmt_hex"].(string))), OF: string(hx.UnHex(d["ofmt_hex"].(string))),
 			L: operandFromDetail(d["l"].(map[string]any)), R: operandFromDetail(d["r"].(map[string]any))}
@@ -1254,6 +1260,39 @@ func main() {
 		}
 	}
 
+	// ---- part 5: multi-record histories (hist.go)
+	nHist := 400
+	if thorough {
+		nHist = 20000
+	}
+	if o.N > 0 {
+		nHist = o.N/8 + 1
+	}
+	hists := fixedHistories()
+	for i := 0; i < nHist; i++ {
+		hists = append(hists, genHistory(r, []string{"default", "default", "default", "csv", "tsv"}[r.Intn(5)]))
+	}
+	for _, h := range hists {
+		lines, err := runHistory(h)
+		rep.Count("history:" + h.Mode)
+		rep.SearchEvals++
+		if err != nil {
+			if strings.HasPrefix(err.Error(), "panic") {
+				rep.Fail(hx.Failure{Class: "history", Oracle: "no-panic", Detail: histDetail(h, &histFail{want: "a result", got: err.Error()})})
+			} else {
+				rep.HarnessError("history: %v\n%s", err, h.Prog)
+			}
+			continue
+		}
+		if hf := checkHistory(h, lines); hf != nil {
+			rep.Fail(hx.Failure{Class: hf.class, Oracle: hf.oracle, Detail: histDetail(h, hf)})
+		}
+		if h.Mode == "default" {
+			add(h.line(), "ok "+strings.Join(lines, " "), "history "+h.Mode)
+		} else {
+			rep.Count("history-oracle-only(csv/tsv split is property C08's model):" + h.Mode)
+		}
+	}
 	flush()
 	rep.Write(o.Out)
 }
